@@ -271,6 +271,10 @@ def _b_harnesses(tier):
                                 "bound": 1 if tier == "quick" else 2})
         out.append({"kind": "model", "model": model, "rot": False, "shared_backend": False, "bodies": ["align", "score", "align"], "level": 1, "bound": 1 if tier == "quick" else 2})
         out.append({"kind": "model", "model": model, "rot": False, "shared_backend": False, "bodies": ["align+score", "score+align"], "level": 1, "bound": 1 if tier == "quick" else 2})
+        # two preemptions: a thread that is overtaken while it updates per-molecule state of the shared model, and a second thread that
+        # is itself interrupted between two uses of that state (one molecule = several calls: rotations, or align followed by score)
+        out.append({"kind": "model", "model": model, "rot": False, "shared_backend": False, "bodies": ["score", "score+score"], "level": 1, "bound": 2})
+        out.append({"kind": "model", "model": model, "rot": True, "shared_backend": False, "bodies": ["score", "align"], "level": 1, "bound": 2})
     # the default-backend global
     out.append({"kind": "backend-global", "bodies": ["using_backend", "construct"], "level": 1, "bound": 2})
     # memoised helpers, colliding and non-colliding keys (closure level 2: callers of lru_cache'd functions)
@@ -289,7 +293,9 @@ def _b_setup(h):
     rng = np.random.default_rng(7)
     shape = (5, 5, 5)
     imgs = [rng.standard_normal(shape).astype(np.float32) for _ in range(4)]
-    quat = data.scipy_rot("gen0").as_quat().astype(np.float32)
+    # every thread aligns its own molecule: distinct orientations (and distinct quaternion objects), so that per-molecule
+    # state kept on the shared model (a wedge memo keyed by value or by identity) is observable
+    quats = [data.scipy_rot(n).as_quat().astype(np.float32) for n in ("gen0", "gen1", "cube5", "gen3")]
     pos = np.zeros(3, dtype=np.float32)
 
     if h["kind"] == "model":
@@ -299,6 +305,8 @@ def _b_setup(h):
             kw["rotations"] = ((0, 0), (0, 0), (30, 30))
 
         def mk_call(name, i, model, be):
+            quat = quats[i % len(quats)]
+
             def one(nm, j):
                 if nm == "align":
                     r = model.align(imgs[j], (1.0, 1.0, 1.0), quat, pos, backend=be)
